@@ -522,35 +522,3 @@ theorem loop_sameShape (fuel : Nat) :
 end Solve
 
 /-! ## C04: the control flow does not depend on the matrix values -/
-
-/-- C04 (scheduled loop): two runs of the elimination on lists of structures that differ at most
-in their matrices (two slices of a sweep), driven by a schedule that reads shape data only, end in
-structures with the same id, pins, index map, connection table, neighbour list and members. -/
-theorem C04_control_flow_value_independent (sched : List (St F) → Option (Nat × Nat))
-    (hs : ∀ l l', Solve.SameShapes l l' → sched l = sched l') (fuel : Nat)
-    {live live' : List (St F)} (h : Solve.SameShapes live live') (fresh : Nat) {s s' : St F}
-    (e : Solve.loopWith sched fuel live fresh = .ok s)
-    (e' : Solve.loopWith sched fuel live' fresh = .ok s') : s.SameShape s' :=
-  Solve.loopWith_sameShape sched hs fuel h fresh e e'
-
-/-- C04 (heuristic loop): the pin-count heuristic picks its pairs from shape data only. -/
-theorem C04_control_flow_value_independent_heuristic (fuel : Nat)
-    {live live' : List (St F)} (h : Solve.SameShapes live live') (fresh : Nat) {s s' : St F}
-    (e : Solve.loop fuel live fresh = .ok s) (e' : Solve.loop fuel live' fresh = .ok s') :
-    s.SameShape s' :=
-  Solve.loop_sameShape fuel h fresh e e'
-
-/-- C04 (single merge): on a same-shape slice a merge that succeeded can only fail by a singular
-star product. -/
-theorem C04_join_failure_value_dependent_only_singular {a a' b b' : St F} (ha : a.SameShape a')
-    (hb : b.SameShape b') (n : Nat) {c : St F} (h : St.join a b n = .ok c) :
-    (∃ c', St.join a' b' n = .ok c' ∧ c.SameShape c') ∨ St.join a' b' n = .error .singular := by
-  rcases St.join_ok_of_sameShape_ne_singular ha hb n h with ⟨c', hc'⟩ | hs
-  · exact Or.inl ⟨c', hc', St.join_sameShape ha hb n h hc'⟩
-  · exact Or.inr hs
-
-#print axioms C04_control_flow_value_independent
-#print axioms C04_control_flow_value_independent_heuristic
-#print axioms C04_join_failure_value_dependent_only_singular
-#print axioms Solve.stepWith_sameShape
-#print axioms Solve.step_sameShape
